@@ -29,7 +29,7 @@ type MatchIndex struct {
 
 // BuildMatchIndex walks groups in sorted name order so first-wins resolution is
 // deterministic across rebuilds. Unparseable ranges are skipped here;
-// ValidateMatchIndex rejects hard collisions before commit.
+// ValidateMatchIndex rejects them, and hard collisions, before commit.
 func BuildMatchIndex(groups *SubscriberGroupsConfig) *MatchIndex {
 	idx := &MatchIndex{bySVLAN: make(map[uint16]*cvlanEntry)}
 	if groups == nil {
@@ -98,9 +98,10 @@ func (idx *MatchIndex) Lookup(svlan, cvlan uint16) (GroupMatch, bool) {
 	return GroupMatch{}, false
 }
 
-// ValidateMatchIndex rejects two ranges claiming the same specific C-VLAN, or
-// two wildcards, on one S-VLAN. A specific C-VLAN alongside a wildcard is fine
-// (Lookup defines the precedence).
+// ValidateMatchIndex rejects a range whose svlan or cvlan string does not parse
+// (BuildMatchIndex would silently drop it), and two ranges claiming the same
+// specific C-VLAN, or two wildcards, on one S-VLAN. A specific C-VLAN alongside
+// a wildcard is fine (Lookup defines the precedence).
 func ValidateMatchIndex(groups *SubscriberGroupsConfig) error {
 	if groups == nil {
 		return nil
@@ -127,11 +128,11 @@ func ValidateMatchIndex(groups *SubscriberGroupsConfig) error {
 			vr := &g.VLANs[i]
 			svlans, err := vr.GetSVLANs()
 			if err != nil {
-				continue
+				return fmt.Errorf("subscriber-group %q vlans[%d]: invalid svlan: %w", name, i, err)
 			}
 			isAny, cvlan, err := vr.GetCVLAN()
 			if err != nil {
-				continue
+				return fmt.Errorf("subscriber-group %q vlans[%d]: invalid cvlan: %w", name, i, err)
 			}
 			for _, s := range svlans {
 				c := claim{svlan: s, cvlan: cvlan, any: isAny}
